@@ -371,7 +371,8 @@ def json_denotation(entry, uni, modname, syn):
         if fmt in ('hex', 'bin'):
             prim = uni.primitive(modname, syn)
             if prim in ('int',):
-                return ('int', int(val))
+                # a value labelled hex holds hex digits (decimal digits under that label read as another number)
+                return ('int', int(val, 16 if fmt == 'hex' else 2))
             return ('octets', bytes.fromhex(val))
         if fmt == 'string':
             return ('octets', val.encode('utf-8'))
@@ -404,9 +405,9 @@ def pysnmp_denotation(cls, prim, enum):
     attr, val = list(found.items())[0]
     try:
         if isinstance(val, pysnmp_rec.Asn1Type):
-            val = val.args[0] if val.args else ''
-            if isinstance(val, str):
-                return ('octets', val.encode('utf-8'))
+            # pyasn1 keeps a class-level default as the payload: with a value OBJECT there, str(), prettyPrint() and
+            # comparisons of the resulting object raise AttributeError (checked against pyasn1 0.6)
+            return ('undecodable', 'default given as a value object: %r' % (val,))
         if prim in ('int', 'enum'):
             if isinstance(val, str):
                 # pyasn1 takes a class-level defaultValue as it is: a label would stay a string that can be neither compared
